@@ -153,9 +153,13 @@ def erase_marker(d, al):
 
 def emptiness_obl(oid, fn, text, lang, al, props, replay=None, kind="regex"):
     """the obligation `lang = {}`; lang is built eagerly (cheap), decided here (complete procedure)"""
+    import time
+    t0 = time.time()
     w = lang.witness()
     if w is None:
-        return Obl(oid, fn, kind, text, status=DISCHARGED, backend="dfa", detail="language empty (%d-state DFA)" % lang.n, props=props)
-    word = al.word(w)
-    o = Obl(oid, fn, kind, text, status=REFUTED, backend="dfa", detail="witness %r" % word, model={"witness": word}, props=props, replay=replay)
+        o = Obl(oid, fn, kind, text, status=DISCHARGED, backend="dfa", detail="language empty (%d-state DFA)" % lang.n, props=props)
+    else:
+        word = al.word(w)
+        o = Obl(oid, fn, kind, text, status=REFUTED, backend="dfa", detail="witness %r" % word, model={"witness": word}, props=props, replay=replay)
+    o.time_s = time.time() - t0
     return o
